@@ -19,6 +19,7 @@ import RtcModel.Lemmas.C07Rtp
 import RtcModel.Lemmas.C07Ice
 import RtcModel.Lemmas.C07Dtls
 import RtcModel.Lemmas.C07Sctp
+import RtcModel.Lemmas.C07SctpSt
 import RtcModel.Lemmas.C07Media
 import RtcModel.Lemmas.C07Sdp
 
@@ -234,8 +235,22 @@ dispatch — never panics and leaves every loop, whatever the checksum compariso
 theorem noPanic_sctpPacket (bs : List UInt8) (crcOk : Bool) (s : String) : runBuf (Sctp.handlePacket crcOk) bs ≠ .panic s :=
   safe_noPanic (Sctp.handlePacket_safe crcOk _) s
 
-/-- the vectors these walkers build (gap blocks, SSN pairs, stream lists, DCEP strings, reassembly append) take at
-most `2·|bs|` bytes per packet. -/
+/-- **noPanic_sctpHistory**: every HISTORY of packets on one association (any bytes, any checksum verdicts, any set of
+issued cookies; server side from scratch or client side with its INIT outstanding) is handled without panic and
+every loop is left: besides the byte walkers this covers the state that decides what is walked — duplicate test,
+in-order fast path, `received_queue` insert and in-order drain of `handle_data` (queued chunk values are re-parsed by
+`process_data_payload` when drained: the proof carries the invariant that every queued value kept its 12-byte header),
+the T1 gates of INIT-ACK / COOKIE-ACK, duplicate INIT, COOKIE-ECHO, FORWARD-TSN with its queue `retain`, RE-CONFIG
+request numbering, DCEP channel creation, and handler errors that end a packet. The model is compared with a real
+association on every run (stream `sctpassoc`: replies, created channels, cumulative TSN, queue length, peer rwnd). -/
+theorem noPanic_sctpHistory (ps : List SctpSt.Pkt) (clientSide : Bool) (b : Buf) (n : Nat) (site : String) :
+    SctpSt.runHistory (if clientSide then { t1 := 1, hasTag := true } else {}) ps b n ≠ .panic site := by
+  apply safe_noPanic (SctpSt.runHistory_safe ps _ b n _) site
+  cases clientSide <;> (intro e he; simp at he)
+
+/-- the vectors the WALKERS build from one packet (gap blocks, SSN pairs, stream lists, DCEP strings, reassembly
+append) take at most `2·|bs|` bytes. Replies the handlers generate (INIT-ACK with cookie, HEARTBEAT-ACK, …) are
+constant-size per chunk and outside this bound (the live stream applies a per-session oracle instead). -/
 theorem allocBound_sctpPacket (bs : List UInt8) (crcOk : Bool) : (runBuf (Sctp.handlePacket crcOk) bs).allocs ≤ 2 * bs.length := by
   simpa [runBuf] using safe_allocs (Sctp.handlePacket_safe crcOk (Buf.ofList bs))
 
